@@ -138,7 +138,7 @@ theorem nest_enter_pos {n : Nest} {c c' : Ctx} (h : NestRel n c c') {y : Option 
 
 /-- leaving an inner block: the nested run pops a frame and uncounts it without ending the transaction -/
 theorem nest_exit_inner {n : Nest} {c c' : Ctx} (h : NestRel n c c') {y : Option Nat} (hy : n.owner = some y)
-    {z : Option Nat} {r : List (Option Nat)} (hz : n.inner = z :: r) (exc : Bool) :
+    {z : Option Nat} {r : List (Option Nat)} (hz : n.inner = z :: r) (exc : Leave) :
     NestRel n.pop (c.step (.exit exc)).1 c' := by
   obtain ⟨hin, hf, hf', hobj⟩ := h.pos y hy
   have hp : n.pop = ⟨some y, r⟩ := by unfold Nest.pop; rw [hz]; simp [hy]
@@ -181,7 +181,7 @@ theorem nest_exit_inner {n : Nest} {c c' : Ctx} (h : NestRel n c c') {y : Option
 
 /-- leaving the outermost block: both runs end the transaction the same way -/
 theorem nest_exit_bot {n : Nest} {c c' : Ctx} (h : NestRel n c c') {y : Option Nat} (hy : n.owner = some y)
-    (hz : n.inner = []) (exc : Bool) :
+    (hz : n.inner = []) (exc : Leave) :
     NestRel n.pop (c.step (.exit exc)).1 (c'.step (.exit exc)).1 := by
   obtain ⟨hin, hf, hf', hobj⟩ := h.pos y hy
   have hp : n.pop = ⟨none, []⟩ := by unfold Nest.pop; rw [hz]
